@@ -354,7 +354,7 @@ MCConfigs(z) ==
                /\ x.mode \in {"rot", "default"} /\ x.prot \in {"on", "off", "expired"}
                /\ (x.client.known => x.client.svc \in {"inherit", "active"})}}
 MCConfigs02(z) == {FixMode(MkR02(rs, "rot")) : rs \in {{}} \cup {{r} : r \in Placed02}}
-MCAnswers02(z) == {AnsOfP(ix, pat) : ix \in {x \in AnsIx : Len(x) <= 2}, pat \in {0, 2}}
+MCAnswers02(z) == {AnsOfP(ix, Len(ix)) : ix \in {x \in AnsIx : Len(x) <= 2}}
 
 Pick01 == /\ p.stage = "idle"
           /\ \E c \in MCConfigs(0), i \in DOMAIN Queries :
@@ -406,7 +406,8 @@ AskWith(first) ==
     /\ UNCHANGED <<cfg, bk>>
 Ask    == p.stage = "ready" /\ AskWith(TRUE)
 Repeat == p.stage = "ready" /\ AskWith(FALSE)
-Finish == /\ p.stage = "done" /\ p' = Ready /\ UNCHANGED <<cfg, req, tab, bk, live>>
+Finish == /\ p.stage = "done" /\ live.n > 0     \* (not after the one-question behaviours of Pick01/02)
+          /\ p' = Ready /\ UNCHANGED <<cfg, req, tab, bk, live>>
 Reconfigure ==
     /\ p.stage = "ready" /\ live.nre < 2
     /\ \E c \in HConfigs(0) :
@@ -417,6 +418,10 @@ Reconfigure ==
 NextHist == Boot \/ Ask \/ Repeat \/ Reconfigure \/ Finish
               \/ Before \/ Initial \/ FilterBefore \/ Upstream \/ FilterAfter \/ Log
 SpecHist == Init /\ [][NextHist]_vars
+\* DnsPipeline.mc.cfg checks both kinds of behaviours in one run: the
+\* one-question behaviours over the larger universe (Pick01 / Pick02) and the
+\* histories of one live server (Boot ...).
+SpecAll == Init /\ [][NextMC \/ NextHist]_vars
 
 \* --- SpecGen01 / SpecGen02: one verdict table per configuration
 Header01 == /\ p.stage = "idle"
@@ -452,7 +457,7 @@ SpecGen02 == Init /\ [][NextGen02]_vars
 
 \* ------------------------------------------------------------- properties
 Done == p.stage = "done"
-Os   == {Outcome(p)}
+Os   == {AsFetched(Outcome(p), p.hit)}     \* the statements count exchanges as if fetched
 Is01 == tab = <<Harmless>>
 
 \* stepwise (SpecMC): the statements on the final state of every behaviour
